@@ -788,13 +788,13 @@ theorem wf_step (L : Limits) (s : Svc) (op : Op) (w : Wf s) : Wf (step L s op).1
       obtain ⟨r0, h0, rfl⟩ := List.mem_map.mp hr
       exact markCanceled_hit id r0 ((markCanceled_id id r0).1 ▸ hid)
     · exact ⟨hm, w.acct, w.ex1, w.ex2, w.st1, w.run1, w.sp1⟩
-  | collect now =>
+  | collect now ax =>
     simp only [step, collect]
     split
     · exact w
     · rename_i hg
       simp only [Bool.or_eq_true, not_or, Bool.not_eq_true, Bool.not_eq_true', List.isEmpty_iff] at hg
-      obtain ⟨⟨⟨hx, hxi⟩, hr⟩, hi⟩ := hg
+      obtain ⟨⟨⟨⟨hx, hxi⟩, hr⟩, hi⟩, hax⟩ := hg
       have hr' : s.ready = [] := by simpa using hr
       have hi' : s.inflight = none := by simpa using hi
       refine ⟨collect_loop_core s now w, ?_, ?_, ?_, w.st1, w.run1, w.sp1⟩
@@ -802,7 +802,10 @@ theorem wf_step (L : Limits) (s : Svc) (op : Op) (w : Wf s) : Wf (step L s op).1
         simp only [hr', hi'] at this ⊢
         simp [this]
       · intro h; simp only at h; rw [hx] at h; cases h
-      · intro h; simpa using h
+      · intro h
+        simp only at h
+        subst h
+        simpa using hax
   | hstart =>
     simp only [step, hstart]
     cases hin : s.inflight with
@@ -1026,13 +1029,13 @@ theorem hi_step (L : Limits) (s : Svc) (h : Hist) (op : Op) (w : Wf s) (i : HI s
       · rw [collected_snoc, started_snoc, skipped_snoc]; simpa [collectedOf, startedOf, skippedOf] using i.perm
       · intro e he; rw [started_snoc]; simp only [startedOf, List.append_nil]; exact i.infl e he
       · intro r hr; rw [reqOf_snoc, reqUpd_noid _ _ _ (by simp)]; exact hreq r hr
-  | collect now =>
+  | collect now ax =>
     simp only [step, collect]
     split
     · exact keep _ _ rfl rfl rfl rfl rfl (by simp) rfl rfl rfl
     · rename_i hg
       simp only [Bool.or_eq_true, not_or, Bool.not_eq_true, Bool.not_eq_true', List.isEmpty_iff] at hg
-      obtain ⟨⟨_, hr⟩, hi⟩ := hg
+      obtain ⟨⟨⟨_, hr⟩, hi⟩, _⟩ := hg
       have hr' : s.ready = [] := by simpa using hr
       have hi' : s.inflight = none := by simpa using hi
       have sp := collect_spec s h now w i
@@ -1266,7 +1269,7 @@ theorem dead_step (L : Limits) (id : Nat) (s : Svc) (op : Op) (d : Dead id s) (h
         exact Or.inr this.2
       · exact this.2
     · exact ⟨⟨hrecs, d.pers, d.rdy⟩, hle, by simp [startedOf]⟩
-  | collect now =>
+  | collect now ax =>
     simp only [step, collect]
     split
     · exact same _ _ rfl rfl rfl rfl rfl rfl
@@ -1417,7 +1420,7 @@ theorem stopped_step (L : Limits) (s : Svc) (op : Op) (w : Wf s) (hs : s.life = 
   | cancel id =>
     simp only [step, cancel, cancelWith]
     split <;> exact ⟨hs, rfl⟩
-  | collect now => simp [step, collect, hex, hs, startedOf]
+  | collect now ax => simp [step, collect, hex, hs, startedOf]
   | hstart => simp [step, hstart, hin, hrd, hs, startedOf]
   | hend => simp [step, hend, hin, hs, startedOf]
   | loopExit =>
@@ -1473,7 +1476,7 @@ theorem runFrom_append (L : Limits) : ∀ (a b : List Op) (s : Svc) (h : Hist),
     exact runFrom_append L a b _ _
 
 /-- steps other than `collect` never remove a record -/
-theorem records_kept (L : Limits) (s : Svc) (op : Op) (hop : ∀ now, op ≠ .collect now) :
+theorem records_kept (L : Limits) (s : Svc) (op : Op) (hop : ∀ now ax, op ≠ .collect now ax) :
     ∀ r ∈ s.records, ∃ r' ∈ (step L s op).1.records, r'.id = r.id ∧ r'.tp = r.tp := by
   intro r hr
   have same : ∀ s' : Svc, s'.records = s.records → ∃ r' ∈ s'.records, r'.id = r.id ∧ r'.tp = r.tp :=
@@ -1502,7 +1505,7 @@ theorem records_kept (L : Limits) (s : Svc) (op : Op) (hop : ∀ now, op ≠ .co
   | cancel id =>
     simp only [step, cancel, cancelWith]
     split <;> exact ⟨markCanceled id r, List.mem_map_of_mem hr, (markCanceled_id id r).1, (markCanceled_id id r).2.2.2.2.2⟩
-  | collect now => exact absurd rfl (hop now)
+  | collect now ax => exact absurd rfl (hop now ax)
   | hstart =>
     simp only [step, hstart]
     split
